@@ -258,7 +258,7 @@ impl Prop for C17 {
         .boxed()
     }
     fn random_cases(&self, tier: Tier) -> u32 {
-        tier.pick(5_000, 150_000)
+        tier.pick(8_000, 120_000)
     }
     fn check(&self, case: &DetCase) -> Outcome {
         let mut out = Outcome::new();
